@@ -521,6 +521,13 @@ def _(c):
     kw = dict(start=d0, stop=d0 + timedelta(hours=14), step=timedelta(seconds=step))
     key = lambda p: (p.date._d, round(p.date._s, 5), p.event.info if p.event else None)
     base = [key(p) for p in sta.visibility(orb, events=True, **kw)]
+    # the caller's own list of listeners handed over through listeners= (with the station events asked for), twice: the list is the caller's -- it comes back as it
+    # was -- and the second stream is the first one again
+    own = mk()
+    n_own = len(own)
+    first = [key(p) for p in sta.visibility(orb, listeners=own, events=True, **kw)]
+    second = [key(p) for p in sta.visibility(orb, listeners=own, events=True, **kw)]
+    c.ensure("callers_list_reused.same_stream_again", first == second and len(own) == n_own)
     extra = mk()
     pts = list(sta.visibility(orb, events=extra, **kw))
     station_events = ("AOS", "LOS", "MAX")
